@@ -1,7 +1,7 @@
 import Qhttp.Model.BasicAuth
 import Qhttp.Model.CxxPrim
 /-
-  Vocabulary of the translated `BasicAuthMiddleware::process/verify`
+  Vocabulary of the translated `BasicAuthMiddleware::process/verify` and `LocalAuthMiddleware::process`
   (`QhttpGen/Auth.lean`).  A QString is represented by its UTF-8 encoding; `QString::fromUtf8(b).toUtf8()` is the
   parameter `round` (what it does to bytes that are not the encoding of a string is not modelled — the bridge
   theorems hold for every `round` that leaves the registered credentials alone).  What the middleware does on the
@@ -24,6 +24,8 @@ structure Env where
   realm : Bytes := []                    -- BasicAuthMiddlewarePrivate::realm
   hdrs  : HeaderMap := []                -- socket->headers()
   round : Bytes → Bytes := id            -- QString::fromUtf8(b).toUtf8()
+  tokenHeader : Bytes := []              -- LocalAuthMiddlewarePrivate::tokenHeader
+  token : Bytes := []                    -- LocalAuthMiddlewarePrivate::token, as UTF-8
 
 /-- `QByteArray == IByteArray`: both sides lower-cased -/
 def ieq (a b : Bytes) : Bool := lower a == lower b
